@@ -612,6 +612,7 @@ func init() {
 			r.Require("pages_after_failed_write", 300)
 			r.Require("dictionary_pages", 300)
 			return []core.Workload{
+				{Name: "callback_histories", N: c.Pick(120, 1200), Fn: cbHistory("C17")},
 				{Name: "callback_pages", N: c.Pick(1600, 20000), Fn: c17Callback},
 				{Name: "sso_error_pages", N: c.Pick(800, 10000), Fn: c17SSOError},
 				{Name: "logout_pages", N: c.Pick(800, 10000), Fn: c17Logout},
